@@ -96,6 +96,7 @@ type harness struct {
 	arrived chan struct{}
 	srcName string
 	tgtName string
+	panics  []string
 }
 
 type proxy struct {
@@ -139,15 +140,27 @@ func (p *proxy) gate(add bool, args am.A, e *am.Event) *call {
 	return c
 }
 
-func (p *proxy) EvAdd(e *am.Event, states am.S, args am.A) am.Result {
+// a panic of the piped call (it runs in a goroutine the pipe forked) would take the process down:
+// it is kept as a failure of the scenario
+func (p *proxy) caught(what string) {
+	if r := recover(); r != nil {
+		p.h.mu.Lock()
+		p.h.panics = append(p.h.panics, fmt.Sprintf("the pipe's %s on the target panicked: %v", what, r))
+		p.h.mu.Unlock()
+	}
+}
+
+func (p *proxy) EvAdd(e *am.Event, states am.S, args am.A) (res am.Result) {
 	c := p.gate(true, args, e)
 	defer close(c.done)
+	defer p.caught(fmt.Sprintf("EvAdd(%v)", states))
 	return p.Machine.EvAdd(e, states, args)
 }
 
-func (p *proxy) EvRemove1(e *am.Event, state string, args am.A) am.Result {
+func (p *proxy) EvRemove1(e *am.Event, state string, args am.A) (res am.Result) {
 	c := p.gate(false, args, e)
 	defer close(c.done)
+	defer p.caught(fmt.Sprintf("EvRemove1(%s)", state))
 	return p.Machine.EvRemove1(e, state, args)
 }
 
@@ -521,6 +534,9 @@ func Exec(c Case, rule string) *Run {
 	if source.IsErr() {
 		run.Failures = append(run.Failures, fmt.Sprintf("piping left the source machine in Exception: %v", source.Err()))
 	}
+	h.mu.Lock()
+	run.Failures = append(run.Failures, h.panics...)
+	h.mu.Unlock()
 	run.SrcFinal, run.TgtFinal = source.Is1(srcName), target.Is1(tgtName)
 	if run.SrcFinal != run.TgtFinal {
 		run.Failures = append(run.Failures, fmt.Sprintf("at joint quiescence the source state is active=%v but the piped target state is active=%v (%s, local=%v)",
